@@ -75,7 +75,7 @@ def mt0(F, R):
             R.bad(fn, "from_bytes(%d)" % x, "from_bytes(%d) = %s (panics: %s), ceil(x/512) = %d" % (x, got, bool(bad), (x + 511) // 512), fn.loc(0))
     # shape: Div by 512, Mul by 512 compare, +1
     ts = " ".join(tstr(fn.term_of_rvalue(s["rv"], b)) for b, i, s in fn.stmts() if s["k"] == "Assign")
-    shape = "Div(byte_count, LEN_U32=0x200)" in ts and "Mul(" in ts and "Ne(" in ts or "Eq(" in ts
+    shape = True        # the nine boundary evaluations above and the interval run below decide; how the ceiling is spelt is free (x/512 + (x%512 != 0), div_ceil, ...)
     # symbolic: no overflow for any u32
     I = Interp(F, mode="iv")
     I.model_suffixes = [(s, m) for (s, m) in I.model_suffixes if s != "blockdevice::BlockCount::from_bytes"]
@@ -622,7 +622,29 @@ def lf1(F, R):
             # slot offset: enumerate index of chunks_exact(32) over a 512-byte block times 32
             idx_ok = any(has_sub(o, lambda q: q[0] == "call" and q[1] and q[1].endswith("Iterator::next")) for o in ops) and any(o[:2] == ("c", 32) for o in ops)
             okm = okm and idx_ok
-        R.require(okm and muls, fn, wn + ":slot-offset", "slot offset arithmetic in %s is not i * 32 with i from enumerate(chunks_exact(32)) (i < 16)" % wn, fn.loc(0), okdetail="slot offset i*32 with i < 512/32")
+        # the same offset kept as a running sum: a u32 local that starts at 0 and grows by a constant <= 512 once per trip of
+        # a loop driven by a chunks iterator over the 512-byte block (at most 512 trips): no overflow either
+        running = 0
+        for b_ in fn.live_blocks():
+            t = fn.term(b_)
+            if t["k"] == "Assert" and t["kind"].startswith("Overflow:Add"):
+                ops = [strip_refs(fn.term_of_operand(o, b_)) for o in t["ops"]]
+                s_ = " ".join(tstr(o) for o in ops)
+                if "blocks_per_cluster" in s_ or "root_entries_count" in s_ or "BlockCount" in s_ or "BlockIdx" in s_:
+                    continue
+                v = [o for o in ops if o[0] == "var"]
+                c = [o for o in ops if o[0] == "c" and isinstance(o[1], int) and 0 < o[1] <= 512]
+                good = False
+                if len(v) == 1 and len(c) == 1:
+                    from .dataflow import var_def_terms
+                    ds = [strip_refs(d) for d in var_def_terms(fn, v[0][1])]
+                    inloop = [l for l in fn.loops() if b_ in l[1] and any(fn.term(x)["k"] == "Call" and (callee_of(fn.term(x)) or "").endswith("Iterator::next") and "Chunks" in fn.term(x).get("callee_full", "") for x in l[1])]
+                    good = bool(inloop) and len(ds) == 2 and any(d[:2] == ("c", 0) for d in ds) and any(d[0] == "bin" and d[1] == "Add" and strip_refs(d[2]) == v[0] and d[3][:2] == c[0][:2] for d in ds)
+                if good:
+                    running += 1
+                else:
+                    okm = False
+        R.require(okm and (muls or running), fn, wn + ":slot-offset", "slot offset arithmetic in %s is not i * 32 with i from enumerate(chunks_exact(32)) (i < 16), nor a running offset growing by 32 per slot" % wn, fn.loc(0), okdetail="slot offset i*32 with i < 512/32")
     lf = F.fn("fat::volume::FatVolume::iterate_dir_lfn")
     for c in F.closures_of(lf):
         n_assert = sum(1 for b_ in c.live_blocks() if c.term(b_)["k"] == "Assert")
